@@ -479,6 +479,12 @@ impl Connection {
         source_port: Option<u16>,
         config: HostConnectionConfig,
     ) -> Result<(Self, ErrorReceiver), ConnectionError> {
+        #[cfg(scylla_verif)]
+        if let Some(connector) = crate::verif::connector() {
+            return Self::verif_new_simulated(connector, connect_address, source_port, config)
+                .await;
+        }
+
         let stream_connector = tokio::time::timeout(
             config.connect_timeout,
             connect_with_source_ip_and_port(
@@ -534,6 +540,64 @@ impl Connection {
             router_handle,
             #[cfg(test)]
             socket,
+        };
+
+        Ok((connection, error_receiver))
+    }
+
+    /// Simulation counterpart of the TCP part of [`Connection::new`]: obtains the
+    /// byte stream from the installed simulated transport (under the same
+    /// `connect_timeout`) and starts the very same router over it.
+    #[cfg(scylla_verif)]
+    async fn verif_new_simulated(
+        connector: Arc<dyn crate::verif::SimConnector>,
+        connect_address: SocketAddr,
+        source_port: Option<u16>,
+        config: HostConnectionConfig,
+    ) -> Result<(Self, ErrorReceiver), ConnectionError> {
+        let stream_connector = tokio::time::timeout(
+            config.connect_timeout,
+            connector.connect(connect_address, config.local_ip_address, source_port),
+        )
+        .await;
+        let stream = match stream_connector {
+            Ok(stream) => stream?,
+            Err(_) => {
+                return Err(ConnectionError::ConnectTimeout);
+            }
+        };
+
+        let (sender, receiver) = mpsc::channel(1024);
+        let (error_sender, error_receiver) = tokio::sync::oneshot::channel();
+        let (orphan_notification_sender, orphan_notification_receiver) = mpsc::unbounded_channel();
+
+        let router_handle = Arc::new(RouterHandle {
+            submit_channel: sender,
+            request_id_generator: AtomicU64::new(0),
+            orphan_notification_sender,
+            keepalive_hint: Notify::new(),
+        });
+
+        let (task, _worker_handle) = Connection::router(
+            config.clone(),
+            stream,
+            receiver,
+            error_sender,
+            orphan_notification_receiver,
+            router_handle.clone(),
+            connect_address,
+        )
+        .remote_handle();
+        tokio::task::spawn(task);
+
+        let connection = Connection {
+            _worker_handle,
+            config,
+            features: Default::default(),
+            connect_address,
+            router_handle,
+            #[cfg(test)]
+            socket: unreachable!("simulated connections are not used in unit tests"),
         };
 
         Ok((connection, error_receiver))
@@ -2507,6 +2571,75 @@ impl VerifiedKeyspaceName {
         }
 
         Ok(())
+    }
+}
+
+/// Direct-driving wrapper over the crate-private [`ResponseHandlerMap`]
+/// (stream-id allocation / orphaning / lookup) with opaque handler tokens.
+#[cfg(scylla_verif)]
+#[allow(unreachable_pub, missing_docs)]
+pub(crate) mod verif_api {
+    use super::{HandlerLookupResult, ResponseHandler, ResponseHandlerMap};
+    use tokio::sync::oneshot;
+
+    pub struct VerifHandlerMap {
+        map: ResponseHandlerMap,
+    }
+
+    #[derive(Debug, Clone, Copy, PartialEq, Eq)]
+    pub enum VerifHandlerLookup {
+        Orphaned,
+        /// The request id of the handler that was waiting on this stream.
+        Handler(u64),
+        Missing,
+    }
+
+    impl Default for VerifHandlerMap {
+        fn default() -> Self {
+            Self::new()
+        }
+    }
+
+    impl VerifHandlerMap {
+        pub fn new() -> Self {
+            Self {
+                map: ResponseHandlerMap::new(),
+            }
+        }
+
+        pub fn allocate(&mut self, request_id: u64) -> Option<i16> {
+            let (response_sender, _receiver) = oneshot::channel();
+            self.map
+                .allocate(ResponseHandler {
+                    response_sender,
+                    request_id,
+                })
+                .ok()
+        }
+
+        pub fn orphan(&mut self, request_id: u64) {
+            self.map.orphan(request_id)
+        }
+
+        pub fn old_orphans_count(&self) -> usize {
+            self.map.old_orphans_count()
+        }
+
+        pub fn lookup(&mut self, stream_id: i16) -> VerifHandlerLookup {
+            match self.map.lookup(stream_id) {
+                HandlerLookupResult::Orphaned => VerifHandlerLookup::Orphaned,
+                HandlerLookupResult::Handler(h) => VerifHandlerLookup::Handler(h.request_id),
+                HandlerLookupResult::Missing => VerifHandlerLookup::Missing,
+            }
+        }
+
+        pub fn into_handlers(self) -> Vec<(i16, u64)> {
+            self.map
+                .into_handlers()
+                .into_iter()
+                .map(|(stream, h)| (stream, h.request_id))
+                .collect()
+        }
     }
 }
 
